@@ -51,7 +51,10 @@ CHECKS = {
         text=("C17_GcExact (a pass at T removes exactly the ephemeral and the expired) is model-checked on Store.tla and evaluated by "
               "TLC on traces of TLC-generated histories with collections at T and T+1 over kinds at the ephemeral boundaries and "
               "expirations T-1/T/T+1/far/malformed/other digit counts/integer-typed, with the collectors' clock injected; both backends; a "
-              "three-event universe is explored to depth 4 / 6 (collected, submitted again, collected again)."),
+              "three-event universe is explored to depth 4 / 6 (collected, submitted again, collected again). The SQL runs use SQLite on a file "
+              "and every other script makes its passes while another client's stored query is being streamed (its connection stays checked "
+              "out of the pool); the complete row / key dump after every step is judged by TLC for entries that outlive their record "
+              "(KvIndex!EntriesWithoutRecord: '... together with all their index entries')."),
         technique="TLA+ Store.tla model-checked by TLC; TLC-generated histories with Gc steps replayed on both backends; traces validated by TLC"),
 }
 
@@ -82,7 +85,10 @@ CHECKS.update({
               "for thousands of (seeded store, filter) runs of the real LMDBStorage, executes the transcription on the dumped store, "
               "compares the scanner's yields (seen through a wrapper around kv.matcher) and the answer with the recorded ones and "
               "evaluates the query clauses on the recorded answer (KvScan_Trace.tla); runs on which code and transcription differ are "
-              "reported as deviations, the property is judged on the recorded answer."),
+              "reported as deviations, the property is judged on the recorded answer. The grammar also contains multi-value ids / authors lists in "
+              "every lower / upper-case spelling, bounds at the epoch (since: 0, until: 0), and a seeded sample of the REQs is sent through "
+              "the connection handler (web.start_client) on one long-lived connection per script with two subscription ids re-used without "
+              "CLOSE, the frames between REQ and EOSE being the answer."),
         technique="TLA+ Query.tla (Complete, Multiplicity) evaluated by TLC on recorded answers to an enumerated filter grammar on both backends; TLA+ KvScan.tla (transcribed LMDB planner/scanner) model-checked by TLC and bound to the code by trace validation of scanner yields and answers"),
     "C12": dict(
         cat="model_checking", ref="DESIGN.md §5 C12", note=QUERY_NOTE,
@@ -92,7 +98,10 @@ CHECKS.update({
               "Second engine (LMDB): the transcription KvScan.tla is model-checked for KS_AtMostLimit and KS_NewestSingle (MC_KvScan; "
               "MC_KvScan_asfound reproduces the open finding for multi-value scans as a TLC counterexample) and executed by TLC on every "
               "recorded (store, filter) of the real LMDBStorage (KvScan_Trace.tla); there the open finding is recognised precisely: the "
-              "recorded answer equals the one the transcribed algorithm produces and the filter has several match values."),
+              "recorded answer equals the one the transcribed algorithm produces and the filter has several match values. Answers during which "
+              "the storage engine fails transiently (SQL: the fetch that follows k delivered rows raises 'database is locked') are judged by "
+              "Query!FaultedVerdict: cut short perhaps, never more than the limit (C12_AtMostLimit, a plain count), never an event twice, and "
+              "what was sent is a newest-first prefix. REQs through the connection handler as under C02."),
         technique="TLA+ Query.tla (LimitOK) evaluated by TLC on recorded answers with max_limit=3 on both backends; TLA+ KvScan.tla (transcribed LMDB planner/scanner/limit) model-checked by TLC and trace-validated against the real scanner"),
 })
 
@@ -112,7 +121,11 @@ CHECKS.update({
               "client schedules on web.start_client for two connections over both backends; the recorder's totally ordered log "
               "(Req/Close/Submit/FanOut/Accept/Notify/QPut/Send/Drop/Idle) is validated line by line against the Relay actions, every "
               "property body is evaluated on every step, and at every Idle line nothing may be pending (every REQ answered by EOSE or "
-              "NOTICE, every query task finished)."),
+              "NOTICE, every query task finished). The environment's choices are widened where a window is narrow: every other schedule has all "
+              "connections come from one address with the same random token; every third connection end is a message timeout (the relay "
+              "closes with 1013); the storage layer's wait before a fan-out always takes a few loop turns and 'defer' steps deliver a REQ / "
+              "CLOSE of another connection exactly then; hand-made race schedules join the simulated ones; the empty string is one of the "
+              "three subscription ids; every fifth schedule runs with a cross-worker notifier that has no connection."),
         technique="TLA+ Relay.tla model-checked by TLC; TLC-simulated schedules replayed on web.start_client; ordered logs validated by TLC (Relay_Trace.tla)"),
     "C05": dict(
         cat="model_checking", ref="DESIGN.md §5 C05", note=RELAY_NOTE,
@@ -163,7 +176,7 @@ CHECKS["C03"] = dict(
           "in C03 universes). The variant classes are a sample of the input language: 18 named mutations (each field changed without "
           "re-signing, re-signed with a wrong / upper-case id, float / string created_at, bool kind, forged / transplanted / short "
           "delegation tags, forgeries under a genuine delegation tag, pubkey / sig in upper-case hex or with an embedded blank), singly and in pairs."),
-    text=("Store.tla's C03_OnlyAuthentic (store, writer queue and fan-out history contain only events the oracle calls authentic) and "
+    text=("Store.tla's C03_OnlyAuthentic (store, writer queue and fan-out history contain only events the oracle calls authentic; events the relay signs itself - add_service_event - are judged by the same oracle: C03_ServiceEventAuthentic) and "
           "Relay.tla's C03_OnlyAuthenticAccepted are model-checked, and evaluated by TLC on the traces of every forged variant "
           "submitted through add_event on both backends, through EVENT frames of web.start_client with a listening subscriber, and "
           "through the bulk-load path proper: the repository's command line (`nostr-relay -c <config> load <dump>`) run as a process on "
@@ -208,7 +221,7 @@ CHECKS["C15"] = dict(
     text=("Auth.tla states when an AUTH payload must be accepted, must be refused, and what is left open (exactly 600 s, a good and a "
           "bad instance of one tag); TLC checks C15_OnlyValidAuth, C15_FailedAuthKeepsIdentity, C15_NoCrossReplay over the whole "
           "payload grammar (MC_Auth). Every single and pairwise deviation from a valid payload (and a seeded sample of the product) "
-          "is concretised into a real signed event (also carrying a genuine NIP-26 delegation by another key: the identity obtained must be the signer's, "
+          "is concretised into a real signed event (also with id and signature lifted from another event of the same key, and carrying a genuine NIP-26 delegation by another key: the identity obtained must be the signer's, "
           "which the recorder projects from the returned token) and sent to Authenticator.authenticate under both relay_urls configurations; "
           "seeded sequences of attempts on two connections with save/query probes run through web.start_client on both backends; "
           "TLC judges every decision and every probe (Auth_Trace.tla)."),
@@ -231,7 +244,8 @@ CHECKS["C16"] = dict(
           "atomic under the GIL) rather than by running racing threads."),
     text=("Validators.tla gives each validator its documented bound and the pipeline first-failing semantics; TLC judges every "
           "submission of 80 attribute vectors at / inside / outside every bound through add_event on both backends under "
-          "single, full and seeded pipelines: decision, reason and that a refusal leaves no trace. DynLists.tla transcribes the "
+          "single, full and seeded pipelines: decision, reason and that a refusal leaves no trace; the proof-of-work requirement is swept "
+          "(1..9 bits, thorough 1..13, ids ground to r-2..r+1 leading zero bits). DynLists.tla transcribes the "
           "refresher's set mutations; TLC checks C16_NoEmptyWindow / C16_ListExact over all interleavings with readers "
           "(MC_DynLists; the as-found clear/update sequence gave the counterexample behind the repair) and validates the "
           "real ListBuilder.run_once, every mutation observed with is_pubkey_allowed asked about every key, against it. Start-up of "
